@@ -10,6 +10,7 @@ import (
 	"fmt"
 	"math/big"
 	"os"
+	"os/exec"
 	"path/filepath"
 	"sort"
 	"strings"
@@ -71,8 +72,34 @@ func Bool(b bool) string {
 	return "false"
 }
 
-// Hex renders bytes as the model's (hx "..") literal.
-func Hex(b []byte) string { return `(hx "` + hex.EncodeToString(b) + `")` }
+// Hex renders bytes as the model's (hb last [chunks]) literal: 7-byte big-endian chunks as primitive
+// 63-bit integers (about 20x cheaper for Coq to parse than string or Z literals); see RunLib.v.
+func Hex(b []byte) string {
+	if len(b) == 0 {
+		return "(hb 0 [])"
+	}
+	var sb strings.Builder
+	last := len(b) % 7
+	if last == 0 {
+		last = 7
+	}
+	fmt.Fprintf(&sb, "(hb %d [", last)
+	for i := 0; i < len(b); i += 7 {
+		j := i + 7
+		if j > len(b) {
+			j = len(b)
+		}
+		if i > 0 {
+			sb.WriteString("; ")
+		}
+		sb.WriteString("0x" + hex.EncodeToString(b[i:j]))
+	}
+	sb.WriteString("]%uint63)")
+	return sb.String()
+}
+
+// HexStr renders bytes as the slower (hx "..") string literal (kept for readability in small files).
+func HexStr(b []byte) string { return `(hx "` + hex.EncodeToString(b) + `")` }
 
 // Str renders an arbitrary byte string as bytes too (Coq string escapes are avoided).
 func List(xs []string) string { return "[" + strings.Join(xs, "; ") + "]" }
@@ -95,6 +122,12 @@ func ZList(xs []int64) string {
 
 // ---------------------------------------------------------------- results
 
+// CasesFileInfo names one generated Gallina file and describes its cases (index = position in the file).
+type CasesFileInfo struct {
+	Path  string        `json:"path"`
+	Cases []interface{} `json:"cases"`
+}
+
 // Failure is a property-oracle failure observed on the implementation alone.
 type Failure struct {
 	What   string      `json:"what"`
@@ -114,8 +147,8 @@ type Result struct {
 	Distribution       map[string]int         `json:"distribution"`
 	Required           []string               `json:"required_classes"` // classes that must be non-empty
 	OracleFailures     []Failure              `json:"oracle_failures"`
-	CasesFiles         []string               `json:"cases_files"`
-	Cases              []interface{}          `json:"cases"` // descriptor per case, index = case number in the .v file
+	CasesFiles         []CasesFileInfo        `json:"cases_files"`
+	Cases              []interface{}          `json:"-"` // descriptors registered since the last CasesFile call
 	Discarded          int                    `json:"discarded"`
 	Extra              map[string]interface{} `json:"extra,omitempty"`
 
@@ -174,8 +207,80 @@ func (r *Result) CasesFile(outDir, name, imports, ty string, items []string, run
 	sb.WriteString("\n].\n")
 	sb.WriteString("Definition M := Eval vm_compute in (" + runner + " cases).\nPrint M.\n")
 	p := filepath.Join(outDir, name+".v")
-	r.CasesFiles = append(r.CasesFiles, p)
+	r.CasesFiles = append(r.CasesFiles, CasesFileInfo{Path: p, Cases: r.Cases})
+	r.Cases = nil
 	return os.WriteFile(p, []byte(sb.String()), 0644)
+}
+
+// Shard / Shards identify this process when a suite runs as several worker processes.
+var Shard, Shards = 0, 1
+
+// RunSharded re-executes the current binary k times (worker i gets -shard i -shards k) and merges the results.
+// A worker that dies (e.g. a goroutine of the code under test panicked) is recorded as an oracle failure.
+func RunSharded(name string, seed uint64, tier, outDir string, k int) (*Result, error) {
+	res := NewResult(name, seed, tier)
+	type done struct {
+		i   int
+		out []byte
+		err error
+	}
+	ch := make(chan done, k)
+	for i := 0; i < k; i++ {
+		go func(i int) {
+			d := filepath.Join(outDir, fmt.Sprintf("shard-%d", i))
+			os.MkdirAll(d, 0755)
+			cmd := exec.Command(os.Args[0], "-out", d, "-seed", fmt.Sprint(seed), "-tier", tier, "-shard", fmt.Sprint(i), "-shards", fmt.Sprint(k), name)
+			cmd.Dir = d
+			out, err := cmd.CombinedOutput()
+			ch <- done{i, out, err}
+		}(i)
+	}
+	for n := 0; n < k; n++ {
+		d := <-ch
+		dir := filepath.Join(outDir, fmt.Sprintf("shard-%d", d.i))
+		if d.err != nil {
+			tail := string(d.out)
+			if len(tail) > 3000 {
+				tail = tail[len(tail)-3000:]
+			}
+			what := "worker process died"
+			for _, line := range strings.Split(string(d.out), "\n") {
+				if strings.HasPrefix(line, "panic:") || strings.HasPrefix(line, "fatal error:") {
+					what = "worker process died: " + line
+					break
+				}
+			}
+			res.Fail(what, "process-died:"+name, map[string]interface{}{"shard": d.i, "shards": k, "output_tail": tail})
+			continue
+		}
+		b, err := os.ReadFile(filepath.Join(dir, name+".json"))
+		if err != nil {
+			return nil, err
+		}
+		var part Result
+		if err := json.Unmarshal(b, &part); err != nil {
+			return nil, err
+		}
+		res.Evaluations += part.Evaluations
+		res.DistinctNontrivial += part.DistinctNontrivial
+		res.Discarded += part.Discarded
+		for k2, v := range part.Distribution {
+			res.Distribution[k2] += v
+		}
+		res.OracleFailures = append(res.OracleFailures, part.OracleFailures...)
+		res.CasesFiles = append(res.CasesFiles, part.CasesFiles...)
+		if len(res.Samples) < 3 {
+			res.Samples = append(res.Samples, part.Samples...)
+		}
+		if res.Rule == "" {
+			res.Rule = part.Rule
+			res.Required = part.Required
+		}
+		for k2, v := range part.Extra {
+			res.Extra[k2] = v
+		}
+	}
+	return res, nil
 }
 
 // Suite is a registered harness suite.
